@@ -89,7 +89,7 @@ def main():
         ],
         "checks": checks,
         "not_applicable": na,
-        "notes": "Exit 0 = held within the stated bounds, 1 = natively reproduced violation (VIOLATION line), 2 = inconclusive (build failure against a changed API, timeout, OOM, vacuous harness, unreproduced counterexample). See DESIGN.md.",
+        "notes": "Exit 0 = held within the stated bounds (or only KNOWN-FINDING lines), 1 = reproduced violation (VIOLATION line), 2 = inconclusive (build failure against a changed API, timeout, OOM, vacuous harness, unreproduced counterexample). hooks.source_commits ca707db91d/86766f6b1b are a forwarder added for the C38 attempt and its revert (net no change). Fix commits in /repo: 42af77a330 (C35), 7ecdc292e6 (C27), acd84091b3 (C11); see known_findings.json and DESIGN.md §6.",
     }
     json.dump(man, open(os.path.join(VERIF, "MANIFEST.json"), "w"), indent=1)
     print(f"MANIFEST.json: {len(checks)} checks, {len(na)} not applicable")
